@@ -52,6 +52,9 @@ enum Op {
     Point(usize),
     LeftOf(f64),
     InRange(f64),
+    /// 2-D only: both coordinates given explicitly (1-D scenarios use the first one)
+    Pair(f64, f64),
+    PairScalar(f64, f64),
 }
 
 type Res = Outcome<Vec<u64>>;
@@ -97,6 +100,36 @@ fn exec1(i: &dyn DynInterp1<f64>, op: &Op) -> Res {
         }),
         Op::LeftOf(q) => i.left_of(*q).map(|k| vec![k as u64]),
         Op::InRange(q) => i.in_range(*q).map(|b| vec![b as u64]),
+        Op::Pair(q, _) => arr_bits(i.one(*q)),
+        Op::PairScalar(q, _) => i.scalar(*q).map(|v| vec![v.to_bits()]),
+    }
+}
+
+/// 2-D histories: calls whose coordinates fail independently, and the "repair and retry"
+/// pattern - a successful call, a call rejected because of one coordinate only, then the same
+/// call again with that coordinate repaired (the other coordinate bit-identical)
+fn inject_pair_patterns(rng: &mut Rng, ops: &mut Vec<Op>, x: &[f64], y: &[f64], scalar_ok: bool) {
+    let (xl, xh, yl, yh) = (x[0], x[x.len() - 1], y[0], y[y.len() - 1]);
+    let n_patterns = (ops.len() / 12).max(2);
+    for _ in 0..n_patterns {
+        let (xa, ya) = (rand_in(rng, xl, xh), rand_in(rng, yl, yh));
+        let (xb, yb) = (rand_in(rng, xl, xh), rand_in(rng, yl, yh));
+        let bad_y = *rng.pick(&[yh.next_up(), yl.next_down(), yh + (yh - yl), f64::NAN]);
+        let bad_x = *rng.pick(&[xh.next_up(), xl.next_down(), xl - (xh - xl), f64::NAN]);
+        // a y close to ya (mostly the same y cell), an x close to xa
+        let yc = (ya + (yh - yl) * 1e-3 * rng.f01()).min(yh);
+        let xc = (xa + (xh - xl) * 1e-3 * rng.f01()).min(xh);
+        let mk = |rng: &mut Rng, a: f64, b: f64| if scalar_ok && rng.chance(0.3) { Op::PairScalar(a, b) } else { Op::Pair(a, b) };
+        let triple: Vec<Op> = match rng.below(4) {
+            0 => vec![mk(rng, xa, ya), mk(rng, xb, bad_y), mk(rng, xb, yc)],
+            1 => vec![mk(rng, xa, ya), mk(rng, bad_x, yb), mk(rng, xc, yb)],
+            2 => vec![mk(rng, xa, ya), mk(rng, xb, bad_y), mk(rng, xb, ya)],
+            _ => vec![mk(rng, xa, ya), mk(rng, xa, bad_y), mk(rng, xb, ya), mk(rng, xa, yc)],
+        };
+        let at = rng.below(ops.len() + 1);
+        for (k, op) in triple.into_iter().enumerate() {
+            ops.insert(at + k, op);
+        }
     }
 }
 
@@ -126,6 +159,8 @@ fn exec2(i: &dyn DynInterp2<f64>, op: &Op, ymap: &dyn Fn(f64) -> f64) -> Res {
         }),
         Op::LeftOf(q) => i.left_of(*q, ymap(*q)).map(|(a, b)| vec![a as u64, b as u64]),
         Op::InRange(q) => i.in_range_x(*q).map(|b| vec![b as u64]),
+        Op::Pair(a, b) => arr_bits(i.one(*a, *b)),
+        Op::PairScalar(a, b) => i.scalar(*a, *b).map(|v| vec![v.to_bits()]),
     }
 }
 
@@ -340,7 +375,7 @@ fn run_scenario(sc: &Scenario, ops: &[Op], rng: &mut Rng, ev: &mut Ev, case: u64
     // (iv) hammer: many threads repeat a small pool of cheap single-query operations in
     // independent random orders, starting together; every answer is compared with the reference
     let pool: Vec<usize> = (0..ops.len())
-        .filter(|&k| matches!(ops[k], Op::One(_) | Op::Scalar(_) | Op::LeftOf(_) | Op::InRange(_)) && !reference[k].is_panic())
+        .filter(|&k| matches!(ops[k], Op::One(_) | Op::Scalar(_) | Op::LeftOf(_) | Op::InRange(_) | Op::Pair(..) | Op::PairScalar(..)) && !reference[k].is_panic())
         .take(24)
         .collect();
     if !pool.is_empty() && hammer_iters > 0 {
@@ -554,7 +589,9 @@ fn main() {
         match case % 4 {
             // Linear over owned storage, Ix2
             0 => {
-                let n = 4 + rng.below(8);
+                // now and then a long axis (thousands of knots), hammered four times as long
+                let long = case % 12 == 8 && !cfg!(miri);
+                let n = if long { 4500 + rng.below(1000) } else { 4 + rng.below(8) };
                 let cls = *rng.pick(&AxisClass::SMOOTH);
                 let x: Vec<f64> = gen_axis(&mut rng, n, cls, &AxisOpts::linear());
                 let data: ArrayD<f64> = gen_data(&mut rng, &[n, 3], DataClass::FullMantissa, (0, 0));
@@ -567,7 +604,10 @@ fn main() {
                 let sc = Scenario { name: "Interp1D<owned, Ix2, Linear>".into(), fresh: Box::new(|op| exec1(&mk(), op)), shared: &run, digest: &dig };
                 ev.case(hash_bits(&[&bits_of(&x)], &["lin"]), true);
                 ev.count("scenario", &sc.name);
-                run_scenario(&sc, &ops, &mut rng, &mut ev, case, &mut sigs, max_threads, perms, hammer_iters);
+                if long {
+                    ev.add("long_axis_scenarios", 1);
+                }
+                run_scenario(&sc, &ops, &mut rng, &mut ev, case, &mut sigs, max_threads, perms, if long { hammer_iters * 4 } else { hammer_iters });
             }
             // CubicSpline (random boundary) over owned storage, Ix2, extrapolating sometimes
             1 => {
@@ -626,7 +666,9 @@ fn main() {
                     // maps the x query to a y query: in range iff x in range (NaN stays NaN)
                     y0 + (y1 - y0) * ((q - x0) / (x1 - x0))
                 };
-                let ops = gen_history(&mut rng, &x, &[2], hist_len, extr);
+                let mut ops = gen_history(&mut rng, &x, &[2], hist_len, extr);
+                inject_pair_patterns(&mut rng, &mut ops, &x, &y, false);
+                ev.add("repair_and_retry_patterns", (hist_len / 12).max(2) as u64);
                 let run = |op: &Op| exec2(&shared, op, &ymap);
                 let dig = || format!("{:?}", shared);
                 let sc = Scenario { name: "Interp2D<owned, Ix3, Bilinear>".into(), fresh: Box::new(|op| exec2(&mk(), op, &ymap)), shared: &run, digest: &dig };
